@@ -38,6 +38,7 @@ func runC06(c *Ctx) {
 	c06LocatorBounds(c)
 	c06CryptoMergeSkipsOverlap(c)
 	c06RangeBound(c)
+	c06HostFromHeadLine(c, "LOCATOR")
 }
 
 func c06Restore(c *Ctx) {
